@@ -964,7 +964,7 @@ theorem output_rules_closed_form (hasLut hasCm differs inFloat hasSi siId hasWin
       if hasLut && inFloat then .error .value
       else if hasWin && (ok != "f") then .error .value
       else .ok (hasLut && !hasCm && differs, hasSi && !siId, hasSi && !siId, hasSi && !siId,
-                !hasLut && !(hasSi && !siId) && !hasWin && (ok == "u" || ok == "i") && (ik == "u" || ik == "i") && !safe,
+                !hasLut && !(hasSi && !siId) && !hasWin && (ok == "u" || ok == "i") && (ik == "u" || ik == "i" || ik == "f") && !safe,
                 ct == "COLOR" || (ct == "PALETTE_COLOR" && hasLut)) := by
   unfold outputRules
   cases hasLut <;> cases hasCm <;> cases differs <;> cases inFloat <;> cases hasSi <;> cases siId <;> cases hasWin <;> simp
@@ -976,7 +976,8 @@ theorem output_range_checked_iff (hasLut hasCm differs inFloat hasSi siId hasWin
     (r : Bool × Bool × Bool × Bool × Bool × Bool)
     (h : outputRules hasLut hasCm differs inFloat hasSi siId hasWin ok ik safe ct = .ok r) :
     r.2.2.2.2.1 = true ↔
-      (hasLut = false ∧ (hasSi = false ∨ siId = true) ∧ hasWin = false ∧ (ok = "u" ∨ ok = "i") ∧ (ik = "u" ∨ ik = "i") ∧ safe = false) := by
+      (hasLut = false ∧ (hasSi = false ∨ siId = true) ∧ hasWin = false ∧ (ok = "u" ∨ ok = "i") ∧ (ik = "u" ∨ ik = "i" ∨ ik = "f") ∧
+        safe = false) := by
   rw [output_rules_closed_form] at h
   split at h
   · cases h
@@ -984,7 +985,7 @@ theorem output_range_checked_iff (hasLut hasCm differs inFloat hasSi siId hasWin
     · cases h
     · injection h with h
       subst h
-      cases hasLut <;> cases hasSi <;> cases siId <;> cases hasWin <;> cases safe <;> simp
+      cases hasLut <;> cases hasSi <;> cases siId <;> cases hasWin <;> cases safe <;> simp [or_assoc]
 
 /-- a VOI window needs a floating-point output type: refused otherwise (never a silently truncated window) -/
 theorem window_needs_float_output (hasLut hasCm differs inFloat hasSi siId : Bool) (ok ik : String) (safe : Bool) (ct : String)
@@ -1050,6 +1051,7 @@ the construction fixes the kind of effective transform that `__call__` applies. 
 
 /-- which of the eight constructions the MODEL's `build` takes (read off its pattern matches) -/
 def buildCode (p : Params) (st : Stages) : Int :=
+  if st.rwvm then 0 else
   let modality := if st.modality then p.modality else .none
   let voi := if st.voi then p.voi else .none
   match modality, voi with
@@ -1067,15 +1069,16 @@ def Eff.kind : Eff → String
   | .ident => "none"
 
 /-- the model dispatches as the source does: the regenerated if / elif chain of the combination block, fed with what the
-    model has found, names the construction `build` takes -/
+    model has found (`has_rwvm` = a real-world map is in force: then nothing is built here, arm 0), names the construction
+    `build` takes -/
 theorem tie_build_dispatch (p : Params) (st : Stages) :
     let modality := if st.modality then p.modality else Modality.none
     let voi := if st.voi then p.voi else Voi.none
-    combineBranch (match modality with | .lut _ _ => true | _ => false) false
+    combineBranch (match modality with | .lut _ _ => true | _ => false) st.rwvm
         (match voi with | .window _ _ _ => true | _ => false) (match voi with | .lut _ _ => true | _ => false) st.invert
       = .ok (buildCode p st) := by
   simp only [buildCode, combineBranch]
-  cases (if st.modality then p.modality else Modality.none) <;> cases (if st.voi then p.voi else Voi.none) <;>
+  cases st.rwvm <;> cases (if st.modality then p.modality else Modality.none) <;> cases (if st.voi then p.voi else Voi.none) <;>
     cases st.invert <;> simp
 
 /-- ... and the construction determines the kind of effective transform: a table for 1-4 and 6, a window for 5, slope /
@@ -1088,10 +1091,42 @@ theorem build_kind_by_code (p : Params) (st : Stages) (e : Eff) (h0 : st.rwvm = 
   unfold build at h
   simp only [h0, Bool.false_eq_true, ↓reduceIte] at h
   unfold buildCode
+  simp only [h0, Bool.false_eq_true, ↓reduceIte]
   cases hm : (if st.modality then p.modality else Modality.none) <;> cases hv : (if st.voi then p.voi else Voi.none) <;>
     cases hi : st.invert <;> simp only [hm, hv, hi] at h ⊢ <;> (try split at h) <;> (try split at h) <;> (try split at h) <;>
     (try cases h) <;> (try (injection h with h; subst h)) <;> (try contradiction) <;> (try simp_all [Eff.kind])
 
+
+
+/-- **link between the built transform and the output-type rules**: `__init__` feeds `outputRules` with "a table / slope-intercept /
+window exists" - in the model: the kind of the `Eff` that `build` returned (`build_kind_by_code`); an `Eff.affine 1 0` is the identity
+rescale.  So for a monochrome image without real-world map the final cast of what `build` produced is range-checked iff nothing or
+only an identity rescale was built, the output type is an integer type, the stored values are integers or floats and numpy cannot
+cast safely. -/
+theorem narrowing_checked_of_built (p : Params) (st : Stages) (e : Eff) (hasCm differs inFloat : Bool) (ok ik : String) (safe : Bool)
+    (r : Bool × Bool × Bool × Bool × Bool × Bool)
+    (h : outputRules (Eff.kind e == "table") hasCm differs inFloat (Eff.kind e == "affine")
+          (match e with | .affine a b _ => a == 1 && b == 0 | _ => false) (Eff.kind e == "window") ok ik safe "MONOCHROME" = .ok r) :
+    r.2.2.2.2.1 = true ↔
+      ((Eff.kind e = "none" ∨ (∃ c, e = .affine 1 0 c)) ∧ (ok = "u" ∨ ok = "i") ∧ (ik = "u" ∨ ik = "i" ∨ ik = "f") ∧ safe = false) := by
+  rw [output_range_checked_iff _ _ _ _ _ _ _ _ _ _ _ r h]
+  cases e with
+  | lut f d c => simp [Eff.kind]
+  | window fn c w i => simp [Eff.kind]
+  | ident => simp [Eff.kind]
+  | affine a b c =>
+    simp only [Eff.kind]
+    constructor
+    · rintro ⟨_, h2, _, h4, h5, h6⟩
+      rcases h2 with h2 | h2
+      · simp at h2
+      · have : a = 1 ∧ b = 0 := by simpa using h2
+        exact ⟨Or.inr ⟨c, by rw [this.1, this.2]⟩, h4, h5, h6⟩
+    · rintro ⟨h1, h4, h5, h6⟩
+      rcases h1 with h1 | ⟨c', h1⟩
+      · simp at h1
+      · injection h1 with ha hb _
+        refine ⟨by simp, Or.inr (by simp [ha, hb]), by simp, h4, h5, h6⟩
 
 /-! ## Type and range of the stored values (regenerated T6r)
 
@@ -1126,6 +1161,61 @@ theorem input_type_table :
     (∀ bs, (inputType false 16 0 bs).map (·.1) = .ok 16) ∧ (∀ bs, (inputType false 32 0 bs).map (·.1) = .ok 32) ∧
     (∀ rep bs, inputType true 32 rep bs = .ok (232, false, 0, 0)) ∧ (∀ rep bs, inputType true 64 rep bs = .ok (264, false, 0, 0)) := by
   refine ⟨?_, ?_, ?_, ?_, ?_, ?_, ?_, ?_, ?_⟩ <;> intros <;> simp [inputType, Except.map]
+
+
+/-- the stored type is SET (code other than -1) exactly for the bit depths the block knows: 8 / 16 / 32 bits signed, 1 / 8 / 16 / 32
+    bits unsigned, 32 / 64 bits for float parametric maps; for anything else (`BitsAllocated` 24, 64-bit integers) `input_dtype`
+    is never assigned and the constructor fails with an AttributeError further down -/
+theorem input_type_set_iff (pm : Bool) (ba rep bs : Int) (r : Int × Bool × Int × Int) (h : inputType pm ba rep bs = .ok r) :
+    r.1 ≠ -1 ↔
+      (if pm = true ∧ 16 < ba then ba = 32 ∨ ba = 64
+       else if rep = 1 then ba = 8 ∨ ba = 16 ∨ ba = 32 else ba = 1 ∨ ba = 8 ∨ ba = 16 ∨ ba = 32) := by
+  unfold inputType at h
+  injection h with h
+  subst h
+  by_cases hp : pm = true ∧ 16 < ba
+  · obtain ⟨hp1, hp2⟩ := hp
+    have hc : (pm && decide (ba > 16)) = true := by simp [hp1]; omega
+    simp only [hc, ↓reduceIte, hp1, hp2, and_self]
+    by_cases h32 : ba = 32
+    · simp [h32]
+    · by_cases h64 : ba = 64
+      · simp [h64]
+      · have a1 : (ba == 32) = false := by simpa using h32
+        have a2 : (ba == 64) = false := by simpa using h64
+        simp [a1, a2, h32, h64]
+  · have hc : (pm && decide (ba > 16)) = false := by
+      cases pm
+      · rfl
+      · simp at hp ⊢; omega
+    simp only [hc, Bool.false_eq_true, ↓reduceIte, hp]
+    by_cases hr : rep = 1
+    · simp only [hr, beq_self_eq_true, ↓reduceIte]
+      by_cases h8 : ba = 8
+      · simp [h8]
+      · by_cases h16 : ba = 16
+        · simp [h16]
+        · by_cases h32 : ba = 32
+          · simp [h32]
+          · have a1 : (ba == 8) = false := by simpa using h8
+            have a2 : (ba == 16) = false := by simpa using h16
+            have a3 : (ba == 32) = false := by simpa using h32
+            simp [a1, a2, a3, h8, h16, h32]
+    · have hr' : (rep == 1) = false := by simpa using hr
+      simp only [hr', Bool.false_eq_true, ↓reduceIte, hr]
+      by_cases h1 : ba = 1
+      · simp [h1]
+      · by_cases h8 : ba = 8
+        · simp [h8]
+        · by_cases h16 : ba = 16
+          · simp [h16]
+          · by_cases h32 : ba = 32
+            · simp [h32]
+            · have a0 : (ba == 1) = false := by simpa using h1
+              have a1 : (ba == 8) = false := by simpa using h8
+              have a2 : (ba == 16) = false := by simpa using h16
+              have a3 : (ba == 32) = false := by simpa using h32
+              simp [a0, a1, a2, a3, h1, h8, h16, h32]
 
 /-- with 1 <= BitsStored <= BitsAllocated the range of stored values lies inside the stored type -/
 theorem input_range_fits_type (ba bs : Nat) (h1 : 1 ≤ bs) (h2 : bs ≤ ba) :
